@@ -227,6 +227,26 @@ def run(prog, check):
                 check.ob('C09.R2', '%s::DepositMarket::interest(%s)' % (dm.module.rel, 'issuer' if issuer else 'holder'), ok, e.where,
                          'interest = Lag(r) * Lag(%s holding)' % ('issued' if issuer else 'own') if ok else 'interest reads ' + p.show()[:200],
                          'a change of the interest rate or of holdings between periods')
+    # ---- R3 (a): a numeric parameter written into an equation by the constructor is written again at generation time --------------
+    # (the book builders - and users - set AlphaIncome / AlphaFin / TaxRate on the built sector; the equation must follow the attribute)
+    for ci in sector_classes(prog):
+        try:
+            itp = effects.run_unit(prog, ci)
+        except AnalysisError:
+            continue
+
+        def numeric(e_):
+            return e_.kind == 'def' and e_.role == SELF and e_.rhs is not None and len(e_.rhs.parts) == 1 and \
+                isinstance(e_.rhs.parts[0], Hole) and e_.rhs.parts[0].kind == 'num'
+        made = {e_.name.key(): e_ for e_ in itp.effects if e_.phase == 'ctor' and numeric(e_)}
+        again = {e_.name.key() for e_ in itp.effects if e_.phase == 'gen' and numeric(e_) and e_.mode == 'set'}
+        for k_, e_ in sorted(made.items(), key=lambda kv: repr(kv[0])):
+            okp = k_ in again
+            check.ob('C09.R3', '%s::%s::parameter-equation-follows-the-attribute(%s)' % (ci.module.rel, ci.name, e_.name.show()), okp, e_.where,
+                     'the equation is re-written from the attribute when the equations are generated' if okp else
+                     'the parameter equation %s is written by the constructor only: a value set on the built sector (as the book builders do) '
+                     'is ignored and the model runs with the constructor value' % e_.name.show(),
+                     'a tax rate / propensity set on the sector object after construction')
     # ---- R3: an override of the generation method keeps what the inherited one does -------------------------
     # (the household classes re-read AlphaIncome / AlphaFin / TaxRate from the attributes at generation time, which is how the
     #  book builders set the propensities after construction; an override that forgets the base call silently ignores them)
